@@ -401,6 +401,9 @@ def af_rules(run, repo, tier):
             r5.fail(f'file decodes [{cfg}]', loc(repo.func(BUILD, 'SqwBuilder.create')), {'problem': str(ex)}, key='decodes')
             continue
         sup = wr.supplied
+        vprobs = [p_ for blk in dec.values() for p_ in sqwfmt.version_problems(blk)]
+        r5.check(not vprobs, f'class names and versions of the documented layout [{cfg}]', where_of(repo, MODELS, 'SqwMainHeader.prepare_for_serialization', 'SqwMainHeader._serialize_to_dict'),
+                 {'problems': sorted(set(vprobs))[:3]}, key='versions')
         try:
             _decoded_content_rules(dec, sup, n_runs, cfg, repo, r4, r5)
         except (KeyError, IndexError, sqwfmt.FormatError) as ex:
@@ -437,7 +440,7 @@ def _decoded_content_rules(dec, sup, n_runs, cfg, repo, r4, r5):
             a = ex_.attrs
             if sqwfmt.scalar(rec['run_id']) != float(a['run_id'] + 1):
                 probs.append(f'run {k}: run_id on disk {sqwfmt.scalar(rec["run_id"])}, expected 1-based {a["run_id"] + 1}')
-            if sqwfmt.scalar(rec['filename']) != a['filename'] or sqwfmt.scalar(rec['filepath']) != a['filepath'] or sqwfmt.scalar(rec['emode']) != float(a['emode'].value) \
+            if sqwfmt.scalar(rec['filename']) != a['filename'] or sqwfmt.scalar(rec['filepath']) != a['filepath'] or sqwfmt.scalar(rec['emode']) != {'direct': 1.0, 'indirect': 2.0}.get(a['emode'].name) \
                     or sqwfmt.scalar(rec['angular_is_degree']) is not False:
                 probs.append(f'run {k}: file name / mode / angle flag')
             disk_ok(rec['efix']['data'], a['efix'], 'meV', f'run {k} efix', probs)
@@ -497,7 +500,7 @@ def _reader_rules(wr, sup, n_runs, cfg, repo, r6, sfi):
                     return None
                 return v_
             exps = read(('experiment_info', 'expdata'))
-            if isinstance(exps, list) and len(exps) == n_runs:
+            if isinstance(exps, list) and len(exps) == n_runs and all(isinstance(x, SObj) and x.cls.module.endswith('_models') for x in exps):
                 for k, (got, ex_) in enumerate(zip(exps, sup['experiments'], strict=True)):
                     model_ok(got, ex_, f'run {k}', ['efix', 'en', 'psi', 'omega', 'dpsi', 'gl', 'gs', 'u', 'v'], ['run_id', 'filename', 'filepath', 'emode'], probs, w)
             elif exps is not None:
@@ -512,12 +515,19 @@ def _reader_rules(wr, sup, n_runs, cfg, repo, r6, sfi):
                 model_ok(inss[0].attrs.get('source'), sup['instrument'].attrs['source'], 'source', [], ['name', 'target_name'], probs, w)
             elif inss is not None:
                 probs.append(f'instruments read: {inss!r}'[:160])
+            def is_model(v_, what):
+                # the reader hands out the package's model of the block (an unparsed structure means it did not recognise what the builder wrote)
+                if isinstance(v_, SObj) and v_.cls.module.endswith('_models'):
+                    return True
+                if v_ is not None:
+                    probs.append(f'{what}: the reader returns {v_.cls.name if isinstance(v_, SObj) else type(v_).__name__} instead of the model of this block')
+                return False
             mh_ = read(('', 'main_header'))
-            if isinstance(mh_, SObj):
+            if is_model(mh_, 'main header'):
                 if mh_.attrs.get('title') != 'the title' or mh_.attrs.get('nfiles') != n_runs:
                     probs.append(f'main header read back: {mh_.attrs}'[:160])
             dm = read(('data', 'metadata'))
-            if isinstance(dm, SObj):
+            if is_model(dm, 'histogram metadata'):
                 model_ok(dm.attrs.get('proj'), sup['dnd'].attrs['proj'], 'proj', ['lattice_spacing', 'lattice_angle', 'u', 'v', 'w', 'offset'], ['title', 'label', 'type', 'non_orthogonal'], probs, w)
                 model_ok(dm.attrs.get('axes'), sup['dnd'].attrs['axes'], 'axes', ['img_scales', 'img_range', 'offset'], ['title', 'label', 'changes_aspect_ratio'], probs, w)
                 ax = dm.attrs.get('axes')
@@ -528,7 +538,7 @@ def _reader_rules(wr, sup, n_runs, cfg, repo, r6, sfi):
                         if c_ is None or [int(x) for x in c_] != want:
                             probs.append(f'axes.{fld} read back as {c_!r}, supplied {want}')
             pm = read(('pix', 'metadata'))
-            if isinstance(pm, SObj) and pm.attrs.get('npix') != 4:
+            if is_model(pm, 'pixel metadata') and pm.attrs.get('npix') != 4:
                 probs.append(f'npix read back {pm.attrs.get("npix")}')
         r6.check(not probs, f'package reader [{cfg}]', loc(sfi), {'problems': probs[:4]}, key='reader')
         for _ in range(2):
